@@ -245,6 +245,32 @@ func registerIntrinsics(e *Engine) {
 	} {
 		r(n, nop)
 	}
+	// errgroup: Go runs the function at once and keeps the first error, Wait returns it
+	r("(*golang.org/x/sync/errgroup.Group).Go", func(p *Path, caller *frame, fn *ssa.Function, args []Value, site ssa.CallInstruction) Value {
+		p.stubs["go statements run the goroutine to completion at the spawn point (one schedule; WaitGroup/errgroup joins are no-ops)"] = true
+		res := p.callValue(args[1], nil, caller, site)
+		g := args[0].(*Ptr)
+		m, _ := p.extra["errgroup"].(map[*Obj]Value)
+		if m == nil {
+			m = map[*Obj]Value{}
+			p.extra["errgroup"] = m
+		}
+		if _, seen := m[g.Obj]; !seen {
+			if iv, ok := res.(*IfaceV); ok && iv.T != nil {
+				m[g.Obj] = res
+			}
+		}
+		return nil
+	})
+	r("(*golang.org/x/sync/errgroup.Group).Wait", func(p *Path, _ *frame, fn *ssa.Function, args []Value, _ ssa.CallInstruction) Value {
+		g := args[0].(*Ptr)
+		if m, _ := p.extra["errgroup"].(map[*Obj]Value); m != nil {
+			if e, ok := m[g.Obj]; ok {
+				return e
+			}
+		}
+		return &IfaceV{}
+	})
 	r("(*sync.Mutex).TryLock", func(p *Path, _ *frame, fn *ssa.Function, _ []Value, _ ssa.CallInstruction) Value {
 		return p.F.True()
 	})
